@@ -306,11 +306,14 @@ def multiCreds (fs : List (String → Ref → Res)) (host : String) (ref : Ref) 
     | .err => .err
     | .ok u s => if u ≠ [] ∨ s ≠ [] then .ok u s else multiCreds rest host ref
 
-/-- Number of credential functions `multiCredsFuncs` calls, given their answers in order. -/
-def consulted : List Res → Nat
-  | [] => 0
-  | .err :: _ => 1
-  | .ok u s :: rest => if u ≠ [] ∨ s ≠ [] then 1 else 1 + consulted rest
+/-- `RegistryHostsFromConfig`: which header set each returned host carries.  `mirrors[i]` says
+whether mirror `i` has a `header` table; the last host is the registry of the reference itself
+(no configured headers). -/
+def hostHeadersFrom : Nat → List Bool → List (Option Nat)
+  | _, [] => [none]
+  | i, h :: hs => (if h then some i else none) :: hostHeadersFrom (i + 1) hs
+
+def hostHeaders (mirrors : List Bool) : List (Option Nat) := hostHeadersFrom 0 mirrors
 
 /-! ## Part K.6 — `normDocker`, a concrete `norm` for the simple grammar -/
 
